@@ -60,6 +60,25 @@ def run_on(repo, prop):
     return c, None
 
 
+def _one(job):
+    prop, w, repo = job
+    d = scratch_copy(repo)
+    try:
+        if not apply_edit(d, w):
+            return {"id": w["id"], "status": "context-missing"}, None
+        c, err = run_on(d, prop)
+        fired = [o for o in c.obls if o["verdict"] == "violation"]
+        hit = [o for o in fired if o["rule"] == w["rule"] or o["rule"] in w.get("also", ())]
+        if err and not hit:
+            return {"id": w["id"], "status": "analysis-" + err[:200]}, w["id"] + " (" + err[:80] + ")"
+        if hit:
+            return {"id": w["id"], "status": "detected", "rule": hit[0]["rule"], "instance": hit[0]["instance"],
+                    "where": hit[0]["where"]}, None
+        return {"id": w["id"], "status": "MISSED", "other_rules_fired": sorted({o["rule"] for o in fired})}, w["id"]
+    finally:
+        shutil.rmtree(d, ignore_errors=True)
+
+
 def run(ctx, prop):
     spec = importlib.import_module("specs." + prop)
     ws = getattr(spec, "WITNESSES", [])
@@ -69,28 +88,17 @@ def run(ctx, prop):
     if any(o["verdict"] == "violation" for o in ctx.obls):
         ctx.witness = {"skipped": "violations present on the analysed tree; witnesses not run"}
         return
+    from concurrent.futures import ProcessPoolExecutor
+    import multiprocessing
+    os.environ["VERIF_JOBS"] = "3"
     results = []
     missed = []
-    for w in ws:
-        d = scratch_copy(pdbmod.REPO)
-        try:
-            if not apply_edit(d, w):
-                results.append({"id": w["id"], "status": "context-missing"})
-                continue
-            c, err = run_on(d, prop)
-            fired = [o for o in c.obls if o["verdict"] == "violation"]
-            hit = [o for o in fired if o["rule"] == w["rule"] or o["rule"] in w.get("also", ())]
-            if err and not hit:
-                results.append({"id": w["id"], "status": "analysis-" + err[:200]})
-                missed.append(w["id"] + " (" + err[:80] + ")")
-            elif hit:
-                results.append({"id": w["id"], "status": "detected", "rule": hit[0]["rule"], "instance": hit[0]["instance"],
-                                "where": hit[0]["where"]})
-            else:
-                results.append({"id": w["id"], "status": "MISSED", "other_rules_fired": sorted({o["rule"] for o in fired})})
-                missed.append(w["id"])
-        finally:
-            shutil.rmtree(d, ignore_errors=True)
+    with ProcessPoolExecutor(max_workers=min(8, len(ws)), mp_context=multiprocessing.get_context("fork")) as ex:
+        outs = list(ex.map(_one, [(prop, w, pdbmod.REPO) for w in ws]))
+    for r, miss in outs:
+        results.append(r)
+        if miss:
+            missed.append(miss)
     det = sum(1 for r in results if r["status"] == "detected")
     print("  witnesses: %d applied+detected, %d context-missing, %d missed" % (
         det, sum(1 for r in results if r["status"] == "context-missing"), len(missed)))
